@@ -22,6 +22,7 @@ EXPLANATION = (
     "max(min(os count, min(affinity, cgroup, LOKY_MAX_CPU_COUNT)), 1); nesting table (level+1, >1 sequential else "
     "threads; workers run their items inside parallel_config(nested backend)); daemon / non-main-thread guards "
     "return 1. The real concurrency inside ThreadPool/multiprocessing.Pool/loky is trusted, not decided."
+    ' Every answer of _cpu_count_user is the minimum evaluated at the time of the call (no remembered value); the sequential path of __call__ and the fallback in configure() agree on the RESOLVED n_jobs.'
 )
 ASSUMPTIONS = [
     "ThreadPool(n) / MemmappingPool(n) / loky executor(max_workers=n) run at most n tasks at once",
